@@ -27,12 +27,15 @@ class Case:
     oracle : callable(impl_answer) -> None | str  (property evaluated on the implementation alone)
     stream : generator stream name (for the distribution report)
     """
-    __slots__ = ('req', 'model', 'spec', 'oracle', 'stream', 'expect', 'panic_ok', 'proj')
+    __slots__ = ('req', 'model', 'spec', 'oracle', 'stream', 'expect', 'panic_ok', 'proj', 'agree')
 
-    def __init__(self, req, stream, model='same', spec=None, oracle=None, expect=None, panic_ok=False, proj=None):
+    def __init__(self, req, stream, model='same', spec=None, oracle=None, expect=None, panic_ok=False, proj=None, agree=None):
         # panic_ok: a panic that the model predicts as well is not a violation (the property has no totality clause)
         # proj: projection applied to the implementation answer before it is compared with the model answer
         self.req, self.stream, self.spec, self.oracle, self.expect, self.panic_ok, self.proj = req, stream, spec, oracle, expect, panic_ok, proj
+        # agree: callable(model_answer, impl_answer) -> bool replacing textual equality (used where only part of the answer is
+        # determined by the properties, e.g. scores but not the identity of the best move among equally good moves)
+        self.agree = agree
         self.model = req if model == 'same' else model
 
 
@@ -76,7 +79,7 @@ def evaluate(ctx, prop, cases):
             st['impl_vs_oracle'] += 1
             violations.append({'kind': 'property', 'stream': c.stream, 'input': c.req, 'impl_output': a,
                                'model_output': model.get(i), 'spec_output': spec.get(i), 'why': why})
-        elif i in model and model[i] != (c.proj(a) if c.proj else a):
+        elif i in model and not (c.agree(model[i], a) if c.agree else model[i] == (c.proj(a) if c.proj else a)):
             st['model_vs_impl'] += 1
             violations.append({'kind': 'correspondence', 'stream': c.stream, 'input': c.req, 'impl_output': a,
                                'model_output': model[i], 'spec_output': spec.get(i),
